@@ -226,7 +226,8 @@ pub fn spawn_one_env(
 }
 
 fn crash_class(sig: i32, stderr: &str) -> String {
-    if stderr.contains("overflowed its stack") {
+    // (under AddressSanitizer a stack overflow is reported by the sanitizer runtime, as "AddressSanitizer: stack-overflow", and ends in SIGABRT)
+    if stderr.contains("overflowed its stack") || stderr.contains("AddressSanitizer: stack-overflow") {
         "crash|stack-overflow".to_string()
     } else if stderr.contains("memory allocation of") {
         "crash|alloc-failure".to_string()
